@@ -109,6 +109,16 @@ const("zigzag_variant", "versatiles_core/src/io/value_reader.rs", [
     (r"fn read_svarint.{0,300}?\(\s*value >> 1\s*\) as i64", 1),
 ], "read_svarint: 0 = arithmetic shift on the i64 cast, 1 = logical shift on the u64")
 
+# ---- C19 PMTiles directories ----
+const("pm_arith_variant", "versatiles_container/src/container/pmtiles/types/entries_v3.rs", [
+    (r"pub fn from_blob.{0,900}?last_id\s*\+=\s*diff", 0),
+    (r"pub fn from_blob.{0,900}?last_id\s*=\s*last_id\s*\.checked_add\(diff\).{0,900}?checked_add\(entries\[i - 1\]\.range\.length\).{0,200}?tmp\.checked_sub\(1\).{0,3000}?pub fn find_tile.{0,1500}?tile_id\.checked_sub\(", 1),
+], "from_blob / find_tile arithmetic: 0 = unchecked u64 (+, -), 1 = checked, failing with an error / no match")
+const("pm_depth_variant", "versatiles_container/src/container/pmtiles/reader.rs", [
+    (r"fn parse_directories\([^)]*depth:\s*usize,?\s*\)\s*->\s*Result<\(\)>\s*\{.{0,200}?ensure!\(depth < 3", 1),
+    (r"fn parse_directories\(", 0),
+], "coverage scan: 0 = unbounded recursion through leaf directories, 1 = at most 3 directory levels")
+
 def main():
     out = ["(* GENERATED by tools/scrape_constants.py from /repo — do not edit *)",
            "From Coq Require Import NArith.", "Local Open Scope N_scope.", ""]
